@@ -36,6 +36,7 @@ EXTRA_FILTERS = ("EdgeFilter1280", "EdgeFilter2048", "SubEquality")
 
 _SHARED = bytearray()
 _FANOUT = {}
+_FANOUT_MV = {}
 
 
 def _transcribe(sessions, order_ops):
@@ -74,7 +75,10 @@ def _transcribe(sessions, order_ops):
                 rec["ret"] = bytes(d).hex()
             elif k == "recv":
                 data = bytes.fromhex(op["hex"])
-                if op.get("ba") and op.get("part") == 1:
+                if op.get("ba") and op.get("part") == 1 and op.get("mv"):
+                    # ... or the very same memoryview object
+                    msgs = se.receive(_FANOUT_MV.setdefault(op["hex"], memoryview(bytes(data))))
+                elif op.get("ba") and op.get("part") == 1:
                     # a fan-out layer hands the very same (never modified) bytearray object to every session whose
                     # stream starts with these octets
                     msgs = se.receive(_FANOUT.setdefault(op["hex"], bytearray(data)))
@@ -171,6 +175,17 @@ def _registration_semantics(customs_bytes):
                     rfc4511.enc_msg(dict(expected_message("search_request", {}, 2), filter={"t": "And", "filters": [{"t": "CustomFilter", "value": "abc"}]})))
     if ok and (not r or type(r[0].filter.filters[0]).__name__ != "CustomFilter"):
         problems.append(["registration-missing/late-filter", "late registered filter decoded as %r" % (r,)])
+    # a registered custom filter is decoded wherever the grammar allows a filter: under not / and / or, nested
+    for shape in ("not", "and", "or", "not-and"):
+        srv = sansldap.LDAPServer()
+        guarded("registration-missing/nested-filter", "register_filter", srv.register_filter, ct.BY_NAME["CustomFilter"])
+        inner = {"t": "CustomFilter", "value": "abc"}
+        f = {"not": {"t": "Not", "filter": inner}, "and": {"t": "And", "filters": [inner]}, "or": {"t": "Or", "filters": [{"t": "Present", "attribute": "cn"}, inner]},
+             "not-and": {"t": "And", "filters": [{"t": "Not", "filter": inner}]}}[shape]
+        ok, r = guarded("registration-missing/nested-filter", "receive of a registered custom filter nested under %s" % shape, srv.receive,
+                        rfc4511.enc_msg(dict(expected_message("search_request", {}, 1), filter=f)))
+        if ok and (not r or "CustomFilter" not in repr(r[0].filter)):
+            problems.append(["registration-missing/nested-filter", "custom filter under %s decoded as %r" % (shape, r)])
     # a custom control deriving from a public built-in control class: still per session only
     for role_cls in (sansldap.LDAPClient, sansldap.LDAPServer):
         fresh = role_cls()
@@ -435,7 +450,7 @@ class C19(PropBase):
         if len(data) > 4 and rng.random() < 0.3:
             cut = rng.choice([1, 1, 2, rng.randint(1, len(data) - 1), rng.randint(1, len(data) - 1)])
             g["queue"] = [{"k": "recv", "hex": data[cut:].hex(), "ba": ba}]
-            return {"k": "recv", "hex": data[:cut].hex(), "ba": ba, "part": 1}
+            return {"k": "recv", "hex": data[:cut].hex(), "ba": ba, "part": 1, "mv": rng.random() < 0.4}
         return {"k": "recv", "hex": data.hex(), "ba": ba}
 
     def _custom_pdu(self, g, rng):
